@@ -257,8 +257,7 @@ func c05R3(c *Ctx) {
 		// and nothing is acknowledged without a transaction (no cached / short-cut success)
 		sig := fn.Obj.Type().(*types.Signature)
 		w2 := q.Escapes(nil, nil, isExactly(upd), func(ret *ast.ReturnStmt) bool {
-			ok, known := isSuccessReturn(info, sig, ret)
-			return known && !ok
+			return guardedFailure(fn, sig, ret)
 		})
 		c.Check(w2 == nil, "C05.R3", "DiskStorage."+m+": every acknowledged call committed a transaction", p.Pos(fn.Decl), fn.Key(), "must-pass: entry → db.Update → success return", "path: "+p.describePath(w2))
 		_, lhs := assignedFromCall(fn, upd)
@@ -319,8 +318,7 @@ func c05R3(c *Ctx) {
 				if sig == nil {
 					return false
 				}
-				ok, known := isSuccessReturn(linfo, sig, ret)
-				return known && !ok
+				return guardedFailure(load, sig, ret)
 			}
 		}
 		ast.Inspect(load.Decl.Body, func(k ast.Node) bool {
